@@ -71,7 +71,11 @@ func ChildMain(jobPath string) {
 			for e := 0; e < job.Episodes; e++ {
 				ng := 2 + e%3 // 2..4 goroutines
 				perG := 24 / ng
-				res.Episodes = append(res.Episodes, RecordEpisode(job.Seed*100003+int64(e), ng, perG, job.Yield || e%2 == 0))
+				var focus *Pair
+				if e%2 == 1 && len(job.Pairs) > 0 {
+					focus = &job.Pairs[(e/2)%len(job.Pairs)]
+				}
+				res.Episodes = append(res.Episodes, RecordEpisode(job.Seed*100003+int64(e), ng, perG, job.Yield || e%4 == 0, focus))
 			}
 		case "handshake":
 			res.Net[ph] = Handshakes(job.Seed, job.Clients, job.Iters, false, job.Yield, true)
